@@ -18,6 +18,7 @@ package main
 import (
 	"bufio"
 	"bytes"
+	"encoding/json"
 	"fmt"
 	"io"
 	"net"
@@ -39,6 +40,12 @@ func main() {
 	}
 	common.Main("C11", runC11)
 }
+
+// maxLegitCost: CPU ticks (1/100 s) of the most expensive stream of this run that ended normally (calibrates the SPIN budget)
+var maxLegitCost int64
+
+// spinSeen: SPIN verdicts so far in this run
+var spinSeen int
 
 const loginLine = "L0 LOGIN user pass\r\n"
 
@@ -79,8 +86,9 @@ type outcome struct {
 	Spin         bool
 	Hang         bool
 	ConnErr      string
-	WithheldCont int // 1-based index of the first piece ending in a literal header that was not followed by a continuation request; 0 = none
-	Withheld     int // 1-based index of the first line whose completion did not arrive before more input was sent; 0 = none
+	SpinCPU      float64 // CPU seconds the server had burnt on this stream when SPIN was declared
+	WithheldCont int     // 1-based index of the first piece ending in a literal header that was not followed by a continuation request; 0 = none
+	Withheld     int     // 1-based index of the first line whose completion did not arrive before more input was sent; 0 = none
 }
 
 var reCompletion = regexp.MustCompile(`^([^ ]*) (OK|NO|BAD)( .*)?$`)
@@ -226,24 +234,38 @@ func runStreamSteps(c *child, login bool, pieces [][]byte, need []int, needCont 
 		tcp.CloseWrite()
 		wdone <- [2]int{withheld, withheldCont}
 	}()
-	// U2: the server must close after our half-close. A spinning parser is detected early by its CPU use.
+	// U2/U3: the server must close after our half-close.
+	// SPIN is judged by what the SERVER consumes, not by wall-clock windows (the machine may be heavily loaded and a
+	// deeply nested command legitimately costs seconds): the CPU time of the child since this stream began must stay
+	// below a budget of 25 CPU-seconds or 6 x the most expensive stream that ended normally in this run, whichever is
+	// larger. A parser that never stops passes any budget. HANG: no close 90 s after the half-close without that CPU use.
+	cpu0 := c.cpuTicks()
 	waited := 0 * time.Second
 	closed := false
 	for !closed {
 		select {
 		case <-rdone:
 			closed = true
-		case <-time.After(3 * time.Second):
-			waited += 3 * time.Second
+		case <-time.After(2 * time.Second):
+			waited += 2 * time.Second
 			if !c.alive() {
 				tcp.SetReadDeadline(time.Now())
 				<-rdone
 				closed = true
 				break
 			}
-			if c.busy(700*time.Millisecond) && c.busy(700*time.Millisecond) {
+			budget := int64(2500)
+			if spinSeen >= 3 {
+				budget = 800 // three streams have already been reported: do not spend 25 CPU-seconds on each further one
+			}
+			if b := 6 * maxLegitCost; b > budget {
+				budget = b
+			}
+			if used := c.cpuTicks() - cpu0; cpu0 >= 0 && used >= budget {
 				o.Spin = true
-			} else if waited >= 45*time.Second {
+				spinSeen++
+				o.SpinCPU = float64(used) / 100
+			} else if waited >= 90*time.Second {
 				o.Hang = true
 			}
 			if o.Spin || o.Hang {
@@ -251,6 +273,11 @@ func runStreamSteps(c *child, login bool, pieces [][]byte, need []int, needCont 
 				<-rdone
 				closed = true
 			}
+		}
+	}
+	if !o.Spin && !o.Hang && cpu0 >= 0 {
+		if used := c.cpuTicks() - cpu0; used > maxLegitCost {
+			maxLegitCost = used
 		}
 	}
 	o.Closed = !o.Spin && !o.Hang
@@ -326,9 +353,9 @@ func judge(s stream, o outcome) (string, string) {
 	case o.Crash:
 		return "CRASH", "the server process died"
 	case o.Spin:
-		return "SPIN", "connection not closed after the client's half-close and the server keeps a CPU busy"
+		return "SPIN", fmt.Sprintf("connection not closed after the client's half-close and the server has burnt %.0f CPU-seconds on this stream (budget: 25 s or 6 x the most expensive stream that ended normally)", o.SpinCPU)
 	case o.Hang:
-		return "HANG", "connection not closed 45 s after the client's half-close"
+		return "HANG", "connection not closed 90 s after the client's half-close"
 	case o.ConnErr != "":
 		return "CONNECT", o.ConnErr
 	}
@@ -581,14 +608,18 @@ func runC11(ctx *common.Ctx) error {
 	shrink := func(s stream, kind string) stream {
 		best := s
 		tries := 0
-		for changed := true; changed && tries < 24; {
+		maxTries := 24
+		if kind == "SPIN" || kind == "HANG" {
+			maxTries = 3
+		}
+		for changed := true; changed && tries < maxTries; {
 			changed = false
 			parts := bytes.SplitAfter(best.Data, []byte("\n"))
 			if len(parts) <= 1 {
 				break
 			}
 			for i := range parts {
-				if tries >= 24 {
+				if tries >= maxTries {
 					break
 				}
 				tries++
@@ -609,7 +640,17 @@ func runC11(ctx *common.Ctx) error {
 		return best
 	}
 
+	only := os.Getenv("C11_ONLY") // debugging aid: run only the streams whose name contains this text, with timings
 	run := func(s stream) {
+		if only != "" {
+			if !strings.Contains(s.Name, only) {
+				return
+			}
+			t0, c0 := time.Now(), c.cpuTicks()
+			defer func() {
+				res.Notes = append(res.Notes, fmt.Sprintf("%s login=%v: wall %.2fs, child cpu %.2fs", s.Name, s.Login, time.Since(t0).Seconds(), float64(c.cpuTicks()-c0)/100))
+			}()
+		}
 		if severe >= 8 && !strings.HasPrefix(s.Name, "script") {
 			res.Count("skipped-after-many-severe-failures")
 			return
@@ -644,14 +685,14 @@ func runC11(ctx *common.Ctx) error {
 		res.Sample(caseRec{Name: s.Name, Login: s.Login, Stream: clip(s.Data, 200), Got: compStr(o.Completions)})
 		// U3 for goroutines that outlive their connection: sampled per batch, attributed by replay
 		if len(batch) >= 40 {
-			if c.busy(250*time.Millisecond) && c.busy(time.Second) {
+			if c.busy(250*time.Millisecond) && c.busy(time.Second) && c.busy(2*time.Second) && c.busy(2*time.Second) {
 				culprit := "(not reproduced individually)"
 				old := batch
 				batch = nil
 				if err := restart(); err == nil {
 					for _, b := range old {
 						runStream(c, b.Login, b.Data)
-						if c.busy(400*time.Millisecond) && c.busy(time.Second) {
+						if c.busy(400*time.Millisecond) && c.busy(time.Second) && c.busy(2*time.Second) && c.busy(2*time.Second) {
 							culprit = fmt.Sprintf("%s stream=%s", map[bool]string{false: "pre-login", true: "post-login"}[b.Login], clip(b.Data, 400))
 							restart()
 							break
@@ -678,6 +719,33 @@ func runC11(ctx *common.Ctx) error {
 		return func(s *stream) { s.Lined = true; s.Expect = exp }
 	}
 	e := func(tag, status string) expect { return expect{Tag: tag, Status: status} }
+
+	// ---------------------------------------------------------------- replay of one recorded stream (bin/check C11 <tier> --replay file)
+	if ctx.Replay != "" {
+		var rp struct {
+			Case struct {
+				Name   string `json:"name"`
+				Login  bool   `json:"login"`
+				Stream string `json:"stream"`
+			} `json:"case"`
+		}
+		b, err := os.ReadFile(ctx.Replay)
+		if err != nil {
+			return err
+		}
+		if err := json.Unmarshal(b, &rp); err != nil {
+			return err
+		}
+		data, err := strconv.Unquote(rp.Case.Stream)
+		if err != nil {
+			return fmt.Errorf("replay file has no replayable stream: %v", err)
+		}
+		t0, c0 := time.Now(), c.cpuTicks()
+		run(stream{Name: "replay:" + rp.Case.Name, Login: rp.Case.Login, Data: []byte(data), Model: true})
+		res.Notes = append(res.Notes, fmt.Sprintf("replay %s login=%v: %d bytes, wall %.2fs, child cpu %.2fs", rp.Case.Name, rp.Case.Login, len(data), time.Since(t0).Seconds(), float64(c.cpuTicks()-c0)/100))
+		res.ModelCases = len(lines)
+		return common.WriteCases(ctx.Out, "Run.RunC11", "case", lines, "")
+	}
 
 	// ---------------------------------------------------------------- 1. scripted shapes
 	msg := "Date: Mon, 01 Jan 2024 10:00:00 +0000\r\nFrom: a@example.com\r\nTo: b@example.com\r\nSubject: x\r\n\r\n0123456789\r\n"
@@ -1196,7 +1264,7 @@ func runC11(ctx *common.Ctx) error {
 		}
 	}
 	// final check for goroutines that spin after their connection is gone
-	if c != nil && c.alive() && c.busy(300*time.Millisecond) && c.busy(time.Second) {
+	if c != nil && c.alive() && c.busy(300*time.Millisecond) && c.busy(time.Second) && c.busy(2*time.Second) && c.busy(2*time.Second) {
 		res.Fail("SPIN-AFTER-CLOSE (end of run)", "the server keeps a CPU busy although every connection has been closed", nil)
 	}
 	if watcher != nil {
